@@ -378,17 +378,23 @@ def inverse_reach(pair: int, n: int, k1: int, k2: int, useval: bool) -> bool:
 
 
 # ---------------------------------------------------- dashes / underscores
-def _keys_node(keys, complex_key=False):
-    ents = [(scalar(T_STR, k), scalar(T_INT, str(i)))
-            for i, k in enumerate(keys)]
+_KEYTAGS = [T_STR, T_INT, 'tag:yaml.org,2002:timestamp',
+            'tag:yaml.org,2002:float']
+
+
+def _keys_node(keys, complex_key=False, ktag=0):
+    # the FIRST key carries tag number ktag (a key such as 1_000 or
+    # 2020-01-01 is a scalar key too, whatever it resolves to)
+    ents = [(scalar(pick(_KEYTAGS, ktag) if i == 0 else T_STR, k),
+             scalar(T_INT, str(i))) for i, k in enumerate(keys)]
     if complex_key:
         ents.append((seq([scalar(T_STR, 'a_b-c')]), scalar(T_INT, '9')))
     return yatiml.Node(mapping(ents))
 
 
-def _dashes(n, k1, k2, cx, direction):
+def _dashes(n, k1, k2, cx, direction, ktag=0):
     keys = [k1, k2][:n]
-    node = _keys_node(keys, cx)
+    node = _keys_node(keys, cx, ktag)
     if direction == 0:
         # keys free of '-': unders_to_dashes then dashes_to_unders restores
         if any('-' in k for k in keys):
@@ -420,13 +426,16 @@ def _dashes(n, k1, k2, cx, direction):
     return after == keys and vals == [str(i) for i in range(n)]
 
 
-def dashes(n: int, k1: str, k2: str, cx: bool, direction: int) -> bool:
+def dashes(n: int, k1: str, k2: str, cx: bool, direction: int,
+           ktag: int) -> bool:
     """
-    pre: 0 <= n <= 2 and 0 <= direction < 2
+    pre: 0 <= n <= 2 and 0 <= direction < 2 and 0 <= ktag < 4
     pre: len(k1) <= 3 and len(k2) <= 2
     post: __return__
     """
-    return _dashes(n, k1, k2, cx, direction)
+    if ktag != 0 and (n != 1 or cx):
+        return True         # other key tags: a single key
+    return _dashes(n, k1, k2, cx, direction, ktag)
 
 
 def dashes_reach(n: int, k1: str, k2: str, cx: bool, direction: int) -> bool:
@@ -453,6 +462,6 @@ CONDITIONS = [
               'keys {v, w}, value attribute None/"v"'},
     {'fn': 'dashes', 'quick': 100, 'thorough': 300, 'twin': 'dashes_reach',
      'bound': '<= 2 keys, FREE strings of length <= 3 and <= 2, optionally a '
-              'complex (sequence) key that must be left alone, both '
-              'directions'},
+              'complex (sequence) key that must be left alone, a key tagged '
+              'int/timestamp/float, both directions'},
 ]
